@@ -17,11 +17,15 @@
     points back at the value), `shift_cseq` (number, method number and verdict unchanged; the three fields and the
     returned offset — also the one pointing back at an oversized number — moved by `k`); `*_new` corollaries for new
     objects; `field_bytes`: a moved field of the moved buffer holds the same bytes.
+  * `shift_fline_new`, `shift_fline_request`, `shift_fline_reason`: ParseFLine from a new object (request line or
+    status line, valid or not) and from an object suspended in the method / URI / version / line end / reason phrase:
+    same verdict, status and method number; offset and the fields of the line moved by `k` (`shReq` / `shRpl`).
   NOT yet proved (decided by the shift oracle on generated / hostile inputs at random `k` with random junk, and by the
-  correspondence): ParseFLine, ParseNameAddrPVal and the value lists, ParseTokenParam / URI lists, ParseHdrLine,
+  correspondence): ParseNameAddrPVal and the value lists, ParseTokenParam / URI lists, ParseHdrLine,
   ParseHeaders, ParseSIPMsg, and relocation of parsed URIs (C18 covers AdjustOffs).
 -/
 import Sipsp.Proofs.Shift
+import Sipsp.Proofs.ShiftFLine
 
 namespace Sipsp.C11
 open Sipsp
@@ -96,6 +100,22 @@ theorem shift_cseq_meaning (k : Nat) (st : PCSeqBody) (hf : st.state = .fin) :
     (shCs k st).cseq = ⟨st.cseq.offs + k, st.cseq.len⟩ ∧ (shCs k st).method = ⟨st.method.offs + k, st.method.len⟩ ∧
     (shCs k st).v = ⟨st.v.offs + k, st.v.len⟩ ∧ (shCs k st).pnc = st.pnc := by
   unfold shCs; rw [hf]; exact ⟨rfl, rfl, rfl, rfl, rfl, rfl, rfl⟩
+
+theorem shift_fline_new (pre t : Buf) (o : Nat) (ho : o ≤ t.size) (hfit : pre.size + t.size ≤ 65535) :
+    parseFLine (pre ++ t) (pre.size + o) {} =
+      shRes pre.size (if (bcPrefix sipVerSP (t.extract o (o + 8)).toList).2 then shRpl pre.size else shReq pre.size)
+        (parseFLine t o {}) := parseFLine_shift_new pre t o ho hfit
+
+theorem shift_fline_request (pre t : Buf) (o : Nat) (pl : PFLine)
+    (hst : pl.state = .reqMethod ∨ pl.state = .reqURI ∨ pl.state = .reqVer ∨ pl.state = .crlf)
+    (hS : FlSafe t o pl) (hfit : pre.size + t.size ≤ 65535) :
+    parseFLine (pre ++ t) (pre.size + o) (shReq pre.size pl) = shRes pre.size (shReq pre.size) (parseFLine t o pl) :=
+  parseFLine_shift_req pre t o pl hst hS hfit
+
+theorem shift_fline_reason (pre t : Buf) (o : Nat) (pl : PFLine) (hst : pl.state = .rplReason)
+    (hS : FlSafe t o pl) (hfit : pre.size + t.size ≤ 65535) :
+    parseFLine (pre ++ t) (pre.size + o) (shRpl pre.size pl) = shRes pre.size (shRpl pre.size) (parseFLine t o pl) :=
+  parseFLine_shift_rpl pre t o pl hst hS hfit
 
 /-! ### non-vacuity (tests) -/
 example : parseCSeqVal ("xyz".toUTF8.data ++ "12 INVITE\r\nX".toUTF8.data) 3 {} =
